@@ -84,6 +84,16 @@ func (p *pipeEnd) Close() error {
 	return nil
 }
 
+// CloseWrite half-closes the connection: the peer reads EOF after draining what was written,
+// while this end can still read (a client that stops sending but reads the replies).
+func (p *pipeEnd) CloseWrite() error {
+	p.w.mu.Lock()
+	p.w.closed = true
+	p.w.cond.Broadcast()
+	p.w.mu.Unlock()
+	return nil
+}
+
 type timeoutErr struct{}
 
 func (timeoutErr) Error() string   { return "i/o timeout" }
